@@ -7,11 +7,16 @@ import (
 	"math"
 	"math/rand"
 	"os"
+	"path/filepath"
 	"strconv"
+	"strings"
 
 	"github.com/markusressel/fan2go/internal/util"
 
+	"github.com/markusressel/fan2go/internal/configuration"
+	"github.com/markusressel/fan2go/internal/control_loop"
 	"github.com/markusressel/fan2go/internal/controller"
+	"github.com/markusressel/fan2go/internal/fans"
 )
 
 // C10 — a stalled never-stop fan is noticed and pushed within a bounded time.
@@ -256,6 +261,95 @@ func checkC10(ctx *Ctx, c *c10Case) {
 
 func advanceMs(ms int64) { vclockAdvance(ms) }
 
+// c10RealFileTach: a file fan on real files whose tachometer file is maintained by another program the way such
+// programs write files - a new file renamed over the old one (also: deleted and created again, or rewritten in place).
+// The fan spins at first, then stalls (0 RPM below a threshold that lies above the current request). fan2go must see
+// the 0 the file now holds and push the fan, poll for poll as in the daemon.
+func c10RealFileTach(ctx *Ctx, r *rand.Rand) {
+	installClock()
+	dir := ctx.Path(uniqueId("c10real"))
+	_ = os.MkdirAll(dir, 0755)
+	defer os.RemoveAll(dir)
+	pwmPath, rpmPath := filepath.Join(dir, "pwm"), filepath.Join(dir, "rpm")
+	how := pick(r, "rename", "rename", "recreate", "in-place")
+	writeRpm := func(v int) {
+		data := []byte(strconv.Itoa(v) + "\n")
+		switch how {
+		case "rename":
+			_ = os.WriteFile(rpmPath+".new", data, 0644)
+			_ = os.Rename(rpmPath+".new", rpmPath)
+		case "recreate":
+			_ = os.Remove(rpmPath)
+			_ = os.WriteFile(rpmPath, data, 0644)
+		default:
+			_ = os.WriteFile(rpmPath, data, 0644)
+		}
+	}
+	_ = os.WriteFile(pwmPath, []byte("60\n"), 0644)
+	_ = os.WriteFile(rpmPath, []byte("1200\n"), 0644)
+	n := pick(r, 1, 2, 5, 10)
+	configuration.CurrentConfig.RpmRollingWindowSize = n
+	curve := newScriptCurve()
+	curve.Val = 60
+	fan, err := fans.NewFan(configuration.FanConfig{ID: uniqueId("c10realfan"), Curve: curve.Id, NeverStop: true, File: &configuration.FileFanConfig{Path: pwmPath, RpmPath: rpmPath}})
+	if err != nil {
+		ctx.Inconclusive("real file tach: " + err.Error())
+		return
+	}
+	ctrl := newController(fan, control_loop.NewDirectControlLoop(nil), newMemPersistence(), identityMap())
+	theta := 0 // the fan spins at every PWM for now
+	devPwm := func() int {
+		b, _ := os.ReadFile(pwmPath)
+		v, _ := strconv.Atoi(strings.TrimSpace(string(b)))
+		return v
+	}
+	plant := func() int {
+		if devPwm() < theta {
+			return 0
+		}
+		return 1200
+	}
+	desc := map[string]interface{}{"scenario": "file fan on real files, tachometer file maintained by " + how, "window": n}
+	B := c10Bound(n)
+	step := func() (raised bool, err error) {
+		writeRpm(plant())
+		ctrl.VerifMeasureRpm()
+		advanceMs(200)
+		before := ctrl.GetStatistics().IncreasedMinPwmCount
+		err = ctrl.UpdateFanSpeed()
+		return ctrl.GetStatistics().IncreasedMinPwmCount > before, err
+	}
+	for i := 0; i < 8; i++ { // healthy phase: fan2go polls the tachometer a few times
+		if _, err := step(); err != nil {
+			ctx.Violation("real-file-tach:error-while-the-fan-spins:"+how, err.Error(), desc)
+			return
+		}
+	}
+	theta = devPwm() + 4 + r.Intn(12) // the rotor blocks: it only turns again a few steps higher
+	since := 0
+	for polls := 0; polls < 40*B; polls++ {
+		raised, err := step()
+		ctx.Eval(1)
+		if err != nil {
+			ctx.Violation("real-file-tach:unexpected-error:"+how, err.Error(), desc)
+			return
+		}
+		since++
+		if raised {
+			since = 0
+		}
+		if plant() > 0 {
+			ctx.Nontrivial(fmt.Sprintf("real-file-tach|%s|w%d", how, n))
+			return
+		}
+		if since > B {
+			ctx.Violation(fmt.Sprintf("never-reacts-to-stall:file-real-tach-%s:window=%d", how, n), fmt.Sprintf("%s: the tachometer file has held 0 for %d polls at an unchanged request %d (bound %d); fan2go's RPM average says %.1f", jsonStr(desc), since, devPwm(), B, fan.GetRpmAvg()), desc)
+			return
+		}
+	}
+	ctx.Violation("never-reacts-to-stall:file-real-tach-"+how, fmt.Sprintf("%s: fan still stalled after %d polls", jsonStr(desc), 40*B), desc)
+}
+
 func init() {
 	register("C10", func(ctx *Ctx) {
 		if ctx.Replay != "" {
@@ -284,6 +378,9 @@ func init() {
 		nc := ctx.N(16, 200)
 		for i := 0; i < nc; i++ {
 			checkC10(ctx, genC10(ctx.Rng, "cmd"))
+		}
+		for i, nf := 0, ctx.N(8, 80); i < nf; i++ {
+			c10RealFileTach(ctx, ctx.Rng)
 		}
 	})
 }
